@@ -44,6 +44,8 @@ def seqCall : String → Option (Call K)
   | "ng_from_path_missing" => some (.exported true (.err .NifflerError))
   | "zip_missing" => some (.exported true (.err .IOError))
   | "ng_from_buffer_empty" => some (.exported true (.err .NifflerError))
+  | "add_seq_hi_invalid" => some (.exported true (.err .InvalidDNA))
+  | "hll_save_bad_utf8_path" => some (.exported true (.err .Utf8Error))
   | "get_abunds_no_track" => some (.exported true .panic)
   | "hll_update_mh_default" => some (.exported true .panic)
   | "load_sigs_bad_moltype" => some (.exported true .panic)
@@ -60,6 +62,10 @@ def seqCall : String → Option (Call K)
   | "ok_ng_count" => some (.exported true (.ok ()))
   | "ok_sig_json" => some (.exported true (.ok ()))
   | "ok_str_from_cstr" => some (.exported true (.ok ()))
+  -- sourmash_aa_to_dayhoff / sourmash_aa_to_hp have no landing pad: a table look-up that is total on bytes
+  | "ok_aa_class_hi" => some (.exported false (.ok ()))
+  | "ok_add_protein_hi" => some (.exported true (.ok ()))
+  | "ok_set_name_hi" => some (.exported true (.ok ()))
   | _ => none
 
 def mismatchKind : String → Option K
@@ -72,6 +78,10 @@ def mismatchKind : String → Option K
 
 def errOr (k : Option K) : Out := match k with | some k => .err k | none => .ok ()
 
+/-- byte classes of `char` data: DEL, the first and the last non-ASCII byte (negative C chars), a
+    two-byte UTF-8 character, and NUL where the length travels separately -/
+def byteClasses : List String := ["b00", "b7f", "b80", "bff", "utf8"]
+
 /-- what the body of export `f` does on in-contract arguments of class `cls`
     (read off the native API: which `Err` it returns, where it panics) -/
 def bodyOutcome (f cls : String) : Out :=
@@ -79,14 +89,17 @@ def bodyOutcome (f cls : String) : Out :=
   let isIn (l : List String) := l.contains cls
   match f with
   -- helpers / error channel
-  | "sourmash_translate_codon" => if isIn ["empty", "len5"] then e .InvalidCodonLength else .ok ()
-  | "sourmash_str_from_cstr" => if cls == "bad_utf8" then e .Utf8Error else .ok ()
+  -- every length other than 1, 2, 3 is refused; unknown codons (any bytes) translate to 'X'
+  | "sourmash_translate_codon" => if isIn ["empty", "len5", "hi5", "large"] then e .InvalidCodonLength else .ok ()
+  | "sourmash_str_from_cstr" => if isIn ["bad_utf8", "b80"] then e .Utf8Error else .ok ()
   -- HyperLogLog
-  | "hll_with_error_rate" => if cls == "valid" then .ok () else e .HLLPrecisionBounds
+  | "hll_with_error_rate" => if isIn ["valid", "k0", "k1", "k_max"] then .ok () else e .HLLPrecisionBounds
   | "hll_cardinality" => if cls == "default" then .panic else .ok ()
   | "hll_similarity" | "hll_containment" | "hll_intersection_size" =>
     if isIn ["default", "mismatch_p4"] then .panic else .ok ()
-  | "hll_add_sequence" => if cls == "invalid" then e .InvalidDNA else if cls == "default" then .panic else .ok ()
+  -- a byte outside ACGT (upper case) is invalid DNA whatever its value; `…_force` skips the k-mers
+  | "hll_add_sequence" =>
+    if cls == "invalid" || byteClasses.contains cls then e .InvalidDNA else if cls == "default" then .panic else .ok ()
   | "hll_add_hash" => if cls == "default" then .panic else .ok ()
   | "hll_merge" =>
     if cls == "mismatch_ksize" then e .MismatchKSizes else if cls == "mismatch_p" then e .MismatchNum else .ok ()
@@ -96,11 +109,15 @@ def bodyOutcome (f cls : String) : Out :=
     if isIn ["missing", "directory"] then e .NifflerError else if cls == "garbage" then .panic
     else if cls == "bad_utf8" then e .Utf8Error else .ok ()
   | "hll_from_buffer" | "nodegraph_from_buffer" =>
-    if cls == "empty" then e .NifflerError else if cls == "garbage" then .panic
+    -- fewer than two bytes: niffler cannot sniff a format; a wrong signature: `assert_eq!` in from_reader
+    if isIn ["empty", "len1", "len1_hi"] then e .NifflerError else if isIn ["garbage", "hi_bytes", "nul_bytes"] then .panic
     else if cls == "truncated" then e .IOError else .ok ()
-  | "hll_save" | "nodegraph_save" => if cls == "missing_dir" then e .IOError else .ok ()
+  | "hll_save" | "nodegraph_save" =>
+    if cls == "missing_dir" then e .IOError else if cls == "bad_utf8" then e .Utf8Error else .ok ()
   -- KmerMinHash
-  | "kmerminhash_add_sequence" | "kmerminhash_seq_to_hashes" => if cls == "invalid" then e .InvalidDNA else .ok ()
+  -- (DNA that is translated for a protein sketch is not validated: `translated_<byte>` succeed)
+  | "kmerminhash_add_sequence" | "kmerminhash_seq_to_hashes" =>
+    if cls == "invalid" || byteClasses.contains cls then e .InvalidDNA else .ok ()
   | "kmerminhash_add_protein" => if cls == "dna_mh" then e .InvalidHashFunction else .ok ()
   | "kmerminhash_add_hash" | "kmerminhash_add_word" => if cls == "abund_overflow" then .panic else .ok ()
   | "kmerminhash_add_hash_with_abundance" => if cls == "max_abund" then .panic else .ok ()
@@ -111,32 +128,35 @@ def bodyOutcome (f cls : String) : Out :=
   | "kmerminhash_count_common" | "kmerminhash_similarity" =>
     if cls == "downsample_num" then e .MismatchScaled else errOr (mismatchKind cls)
   | "kmerminhash_angular_similarity" =>
-    if isIn ["compat", "empty"] then e .NeedsAbundanceTracking
+    if isIn ["compat", "empty", "k1", "zero_zero"] then e .NeedsAbundanceTracking
     else if cls == "abund_overflow" then .panic else errOr (mismatchKind cls)
   -- Nodegraph
   | "nodegraph_count" | "nodegraph_get" | "nodegraph_matches" | "nodegraph_update_mh" =>
     if cls == "zero_len_table" then .panic else .ok ()
-  | "nodegraph_count_kmer" | "nodegraph_get_kmer" => if cls == "valid" then .ok () else .panic
+  -- only the first ksize bytes are hashed (`long`); fewer bytes than ksize hash nothing (`len1`)
+  | "nodegraph_count_kmer" | "nodegraph_get_kmer" => if isIn ["valid", "len1", "long"] then .ok () else .panic
   | "nodegraph_expected_collisions" => if isIn ["default", "zero_tables"] then .panic else .ok ()
   -- Signature
-  | "signature_add_sequence" => if cls == "invalid" then e .InvalidDNA else .ok ()
+  | "signature_add_sequence" => if cls == "invalid" || byteClasses.contains cls then e .InvalidDNA else .ok ()
   | "signature_add_protein" => if cls == "dna_sig" then e .InvalidHashFunction else .ok ()
   | "signature_first_mh" => if isIn ["empty_sig", "hll_sketch"] then e .Internal else .ok ()
   | "signature_eq" => if cls == "empty" then .panic else .ok ()
   | "signatures_load_path" =>
-    if cls == "bad_moltype" then .panic else if cls == "missing" then e .NifflerError
+    if isIn ["bad_moltype", "moltype_utf8"] then .panic else if cls == "missing" then e .NifflerError
     else if cls == "garbage" then e .SerdeError
     else if isIn ["bad_utf8", "moltype_bad_utf8"] then e .Utf8Error else .ok ()
   | "signatures_load_buffer" =>
     if isIn ["bad_moltype", "bad_molecule", "hll_sketch"] then .panic
-    else if cls == "empty" then e .NifflerError else if cls == "garbage" then e .SerdeError else .ok ()
+    else if isIn ["empty", "len1", "len1_hi"] then e .NifflerError
+    else if isIn ["garbage", "hi_bytes", "nul_bytes"] then e .SerdeError else .ok ()
   -- ZipStorage
   | "zipstorage_new" =>
-    if isIn ["missing", "empty_path", "directory"] then e .IOError else if cls == "not_a_zip" then .panic
+    if isIn ["missing", "empty_path", "directory", "b00", "len1"] then e .IOError else if cls == "not_a_zip" then .panic
     else if cls == "bad_utf8" then e .Utf8Error else .ok ()
   | "zipstorage_load" =>
-    if cls == "missing_entry" then e .StorageError else if cls == "bad_utf8" then e .Utf8Error else .ok ()
-  | "zipstorage_set_subdir" => if cls == "bad_utf8" then e .Utf8Error else .ok ()
+    if isIn ["missing_entry", "utf8", "b00", "len1", "large"] then e .StorageError
+    else if isIn ["bad_utf8", "b80"] then e .Utf8Error else .ok ()
+  | "zipstorage_set_subdir" => if isIn ["bad_utf8", "b80"] then e .Utf8Error else .ok ()
   -- RevIndex
   | "revindex_new_with_sigs" =>
     if isIn ["empty_sigs", "empty_queries", "queries_threshold0_mismatch", "template_mismatch"] then .panic else .ok ()
